@@ -171,6 +171,8 @@ def discharge(prog, f, n, kind, pv):
                 return "G4: insert at 0 is always in bounds"
             recv = hir.call_args(n)[0]
             os_ = pv.origins(f, hir.call_args(n)[1])
+            if os_ and all(r[0] == "call" and r[1].split("::")[-1] in ("position", "len") for r, p in os_):
+                return "G4: index is a position() within the list or its len()"
             if os_ and all((r[0] == "call" and r[1].split("::")[-1] == "count") or (r[0] == "lit" and r[1] == 0) for r, p in os_):
                 ok = True
                 for r, p in os_:
